@@ -540,3 +540,184 @@ def translate_results_encoders():
                "def binary_encode_timedelta (is_negative days seconds microseconds : Nat) : Bytes :=\n" + e.block(f.body, env, 1) + "\n")
     out.append("end Mimic.Extracted.ResultsCode")
     return "\n".join(out) + "\n"
+
+
+# ----------------------------------------------------------------------------- reply packet builders of packets.py
+class PartsEnc(Enc):
+    """functions that collect `parts` and return `_concat(*parts)`.  Text arguments stand for their encoded bytes
+    (`server_charset.encode(x)` is `x`): the codec is abstract."""
+
+    def __init__(self, sigs, caps_bits):
+        super().__init__(sigs)
+        self.caps_bits = caps_bits
+
+    def expr(self, n, env):
+        if isinstance(n, ast.Constant) and isinstance(n.value, bytes):
+            return "([%s] : Bytes)" % ", ".join(str(b) for b in n.value), "bytes"
+        if isinstance(n, ast.Constant) and isinstance(n.value, str) and n.value == "":
+            return "([] : Bytes)", "bytes"
+        if isinstance(n, ast.Name) and env.get(n.id) == "bool":
+            return n.id, "boolv"
+        if isinstance(n, ast.UnaryOp) and isinstance(n.op, ast.Not):
+            a, ta = self.expr(n.operand, env)
+            if ta == "boolv":
+                return "%s = false" % a, "bool"
+            raise Untranslatable("not of " + ta)
+        if isinstance(n, ast.IfExp):
+            c, tc = self.cond(n.test, env)
+            a, ta = self.expr(n.body, env)
+            b, tb = self.expr(n.orelse, env)
+            if ta != tb:
+                raise Untranslatable("conditional expression with branches of different types")
+            return "(if %s then %s else %s)" % (c, a, b), ta
+        if isinstance(n, ast.BinOp) and isinstance(n.op, ast.BitOr):
+            a, ta = self.expr(n.left, env)
+            b, tb = self.expr(n.right, env)
+            if ta == tb == "nat":
+                return "(%s ||| %s)" % (a, b), "nat"
+            raise Untranslatable("| on " + ta)
+        if isinstance(n, ast.Compare) and len(n.ops) == 1 and isinstance(n.ops[0], ast.In) and isinstance(n.left, ast.Attribute) \
+                and isinstance(n.left.value, ast.Name) and n.left.value.id == "Capabilities":
+            a, ta = self.expr(n.comparators[0], env)
+            if n.left.attr not in self.caps_bits or ta != "nat":
+                raise Untranslatable("capability test " + ast.unparse(n))
+            return "Mimic.Py.hasBit %s %d = true" % (a, self.caps_bits[n.left.attr]), "bool"
+        if isinstance(n, ast.Compare) and len(n.ops) == 1 and isinstance(n.ops[0], ast.Is) and isinstance(n.comparators[0], ast.Constant) \
+                and n.comparators[0].value is None and isinstance(n.left, ast.Name) and env.get(n.left.id) == "optbytes":
+            return "%s = none" % n.left.id, "bool"
+        if isinstance(n, ast.Call) and isinstance(n.func, ast.Attribute) and n.func.attr == "encode" and isinstance(n.func.value, ast.Name) \
+                and n.func.value.id == "server_charset" and len(n.args) == 1:
+            a = n.args[0]
+            if isinstance(a, ast.Call) and isinstance(a.func, ast.Name) and a.func.id == "str" and len(a.args) == 1:
+                a = a.args[0]
+            if isinstance(a, ast.Name) and env.get(a.id) == "bytes":
+                return a.id, "bytes"
+            if isinstance(a, ast.Name) and env.get(a.id) == "optbytes":
+                return "(%s.getD [])" % a.id, "bytes"
+            raise Untranslatable("server_charset.encode of " + ast.unparse(a))
+        if isinstance(n, ast.Call) and isinstance(n.func, ast.Name) and n.func.id == "len" and len(n.args) == 1:
+            a, ta = self.expr(n.args[0], env)
+            if ta == "bytes":
+                return "(%s).length" % a, "nat"
+        return super().expr(n, env)
+
+    def cond(self, n, env):
+        c, t = self.expr(n, env)
+        if t == "boolv":
+            return "%s = true" % c, "bool"
+        if t != "bool":
+            raise Untranslatable("condition of type " + t)
+        return c, "bool"
+
+    def appends(self, stmts, env, acc):
+        """a block that only extends `parts` (possibly under nested ifs) → Lean expression for the new value of parts"""
+        for s in stmts:
+            if isinstance(s, ast.Expr) and isinstance(s.value, ast.Call) and isinstance(s.value.func, ast.Attribute) \
+                    and isinstance(s.value.func.value, ast.Name) and s.value.func.value.id == "parts":
+                m = s.value.func.attr
+                if m == "append":
+                    e, t = self.expr(s.value.args[0], env)
+                    if t != "bytes":
+                        raise Untranslatable("append of " + t)
+                    acc = "(%s ++ %s)" % (acc, e)
+                elif m == "extend" and isinstance(s.value.args[0], ast.List):
+                    for x in s.value.args[0].elts:
+                        e, t = self.expr(x, env)
+                        if t != "bytes":
+                            raise Untranslatable("extend with " + t)
+                        acc = "(%s ++ %s)" % (acc, e)
+                else:
+                    raise Untranslatable("parts." + m)
+            elif isinstance(s, ast.If):
+                c, _ = self.cond(s.test, env)
+                a = self.appends(s.body, env, acc)
+                b = self.appends(s.orelse, env, acc) if s.orelse else acc
+                acc = "(if %s then %s else %s)" % (c, a, b)
+            elif isinstance(s, ast.Assign) and len(s.targets) == 1 and isinstance(s.targets[0], ast.Name):
+                # a local used by the appends that follow (e.g. default_values = server_charset.encode(default))
+                e, t = self.expr(s.value, env)
+                env[s.targets[0].id] = t
+                acc = "(let %s := %s; %s)" % (s.targets[0].id, e, "%s")
+                raise Untranslatable("local assignment inside an append block")
+            else:
+                raise Untranslatable("statement in append block: " + ast.dump(s)[:120])
+        return acc
+
+    def function(self, f, env):
+        lets = []
+        parts = None
+        for s in f.body:
+            if isinstance(s, ast.Expr) and isinstance(s.value, ast.Constant):
+                continue
+            if isinstance(s, ast.Assign) and len(s.targets) == 1 and isinstance(s.targets[0], ast.Name) and s.targets[0].id == "parts" \
+                    and isinstance(s.value, ast.List):
+                items = [self.expr(x, env) for x in s.value.elts]
+                if any(t != "bytes" for _, t in items):
+                    raise Untranslatable("parts element that is not bytes")
+                parts = "(" + " ++ ".join(a for a, _ in items) + ")" if items else "([] : Bytes)"
+                continue
+            if isinstance(s, ast.Assign) and len(s.targets) == 1 and isinstance(s.targets[0], ast.Name) and isinstance(s.value, ast.BoolOp) \
+                    and isinstance(s.value.op, ast.Or) and len(s.value.values) == 2 and isinstance(s.value.values[0], ast.Name) \
+                    and s.value.values[0].id == s.targets[0].id and env.get(s.targets[0].id) == "bytes":
+                b = s.value.values[1]
+                if isinstance(b, ast.Constant) and b.value == "":
+                    continue                      # x = x or ""  : the empty text encodes to no bytes
+                e, t = self.expr(b, env)
+                if t != "bytes":
+                    raise Untranslatable("x or <%s>" % t)
+                v = s.targets[0].id
+                lets.append("let %s := if %s = [] then %s else %s" % (v, v, e, v))
+                continue
+            if isinstance(s, ast.Return):
+                if not (isinstance(s.value, ast.Call) and isinstance(s.value.func, ast.Name) and s.value.func.id == "_concat"
+                        and len(s.value.args) == 1 and isinstance(s.value.args[0], ast.Starred)):
+                    raise Untranslatable("return " + ast.unparse(s.value))
+                if parts is None:
+                    raise Untranslatable("return before parts")
+                return "".join("  %s\n" % l for l in lets) + "  " + parts
+            if parts is None:
+                raise Untranslatable("statement before parts: " + ast.dump(s)[:120])
+            parts = self.appends([s], env, parts)
+        raise Untranslatable("no return")
+
+
+def translate_reply_builders():
+    from mysql_mimic import packets as P, errors as E
+    from mysql_mimic.types import Capabilities
+    tree = ast.parse(inspect.getsource(P))
+    fn = {n.name: n for n in tree.body if isinstance(n, ast.FunctionDef)}
+    caps_bits = {c.name: int(c).bit_length() - 1 for c in Capabilities}
+    sigs = {"uint_1": (["nat"], "bytes"), "uint_2": (["nat"], "bytes"), "uint_3": (["nat"], "bytes"), "uint_4": (["nat"], "bytes"),
+            "uint_8": (["nat"], "bytes"), "uint_len": (["nat"], "bytes"), "str_len": (["bytes"], "bytes"), "str_rest": (["bytes"], "bytes"),
+            "str_null": (["bytes"], "bytes"), "str_fixed": (["nat", "bytes"], "bytes"), "get_sqlstate": (["nat"], "bytes")}
+    out = ["-- GENERATED by harness/extract.py (harness/pytrans.py) from /repo/mysql_mimic/packets.py, errors.py — do not edit",
+           "import Mimic.Py", "import Mimic.Extracted.Types", "namespace Mimic.Extracted.PacketsCode", "open Mimic.Py Mimic.Extracted.Types", ""]
+    # get_sqlstate from the table
+    src = inspect.getsource(E.get_sqlstate)
+    if "SQLSTATES.get(code, b\"HY000\")" not in src and "SQLSTATES.get(code, b'HY000')" not in src:
+        raise Untranslatable("get_sqlstate is no longer a table lookup with default HY000")
+    rows = ", ".join("(%d, [%s])" % (int(k), ", ".join(str(b) for b in v)) for k, v in E.SQLSTATES.items())
+    out.append("def sqlstates : List (Nat × Bytes) := [%s]" % rows)
+    out.append("def get_sqlstate (code : Nat) : Bytes := (sqlstates.lookup code).getD [72, 89, 48, 48, 48]\n")
+    e = PartsEnc(sigs, caps_bits)
+    specs = [
+        ("make_ok", [("capabilities", "nat"), ("status_flags", "nat"), ("eof", "bool"), ("affected_rows", "nat"), ("last_insert_id", "nat"),
+                     ("warnings", "nat"), ("flags", "nat")]),
+        ("make_eof", [("capabilities", "nat"), ("status_flags", "nat"), ("warnings", "nat"), ("flags", "nat")]),
+        ("make_error", [("capabilities", "nat"), ("msg", "bytes"), ("code", "nat")]),
+        ("make_column_definition_41", [("schema", "bytes"), ("table", "bytes"), ("org_table", "bytes"), ("name", "bytes"), ("org_name", "bytes"),
+                                       ("character_set", "nat"), ("column_length", "nat"), ("column_type", "nat"), ("flags", "nat"), ("decimals", "nat"),
+                                       ("is_com_field_list", "bool"), ("default", "optbytes")]),
+    ]
+    lt = {"nat": "Nat", "bytes": "Bytes", "bool": "Bool", "optbytes": "Option Bytes"}
+    for name, params in specs:
+        f = fn[name]
+        declared = [a.arg for a in f.args.args]
+        want = [p for p, _ in params]
+        if [p for p in declared if p != "server_charset"] != want:
+            raise Untranslatable("%s: parameters are %r" % (name, declared))
+        env = dict(params)
+        body = e.function(f, env)
+        out.append("def %s %s: Bytes :=\n%s\n" % (name, "".join("(%s : %s) " % (p, lt[t]) for p, t in params), body))
+    out.append("end Mimic.Extracted.PacketsCode")
+    return "\n".join(out) + "\n"
